@@ -34,6 +34,7 @@ var verifNative struct {
 	observes []string
 	dirs     []string
 	monitors map[string]bool
+	faultOpen int // > 0: the n-th following os.Open of the code under test fails
 	monitorHits []string
 	frozen   []interface{}
 }
@@ -47,6 +48,7 @@ func verifReset(vec []int64, tier int) {
 	verifNative.frozen = nil
 	verifNative.monitors = map[string]bool{}
 	verifNative.monitorHits = nil
+	verifNative.faultOpen = 0
 	verifSchedReset()
 }
 
@@ -138,6 +140,10 @@ func VerifMaxSteps(n int) {}
 // interpreted instructions; exceeding it is reported as a hang.  Natively the
 // replay driver's wall-clock limit plays that role.
 func VerifStepBudget(n int) {}
+
+// VerifFaultOpen injects one I/O fault: the n-th os.Open (n >= 1) that the
+// code under test performs from now on fails with "too many open files".
+func VerifFaultOpen(n int) { verifNative.faultOpen = n }
 
 // VerifQuiet runs f without recording its filesystem steps in the trace that
 // is compared between the model and the real filesystem (for harness-level
